@@ -2373,3 +2373,507 @@ let rec merge fuel sch doc =
                   | None -> (((k, a), b), sv))) (sm :: sms))
            | _ -> doc))
      | _ -> doc)
+
+(** val fffd : coq_N list **)
+
+let fffd =
+  (Npos (Coq_xI (Coq_xI (Coq_xI (Coq_xI (Coq_xO (Coq_xI (Coq_xI
+    Coq_xH)))))))) :: ((Npos (Coq_xI (Coq_xI (Coq_xI (Coq_xI (Coq_xI (Coq_xI
+    (Coq_xO Coq_xH)))))))) :: ((Npos (Coq_xI (Coq_xO (Coq_xI (Coq_xI (Coq_xI
+    (Coq_xI (Coq_xO Coq_xH)))))))) :: []))
+
+(** val utf8_lossy_f : nat -> coq_N list -> coq_N list **)
+
+let rec utf8_lossy_f fuel l =
+  match fuel with
+  | O -> []
+  | S f ->
+    (match l with
+     | [] -> []
+     | c :: r ->
+       if N.ltb c (Npos (Coq_xO (Coq_xO (Coq_xO (Coq_xO (Coq_xO (Coq_xO
+            (Coq_xO Coq_xH))))))))
+       then c :: (utf8_lossy_f f r)
+       else if (&&)
+                 (N.leb (Npos (Coq_xO (Coq_xI (Coq_xO (Coq_xO (Coq_xO (Coq_xO
+                   (Coq_xI Coq_xH)))))))) c)
+                 (N.leb c (Npos (Coq_xI (Coq_xI (Coq_xI (Coq_xI (Coq_xI
+                   (Coq_xO (Coq_xI Coq_xH)))))))))
+            then (match r with
+                  | [] -> fffd
+                  | c1 :: r1 ->
+                    if cont c1
+                    then c :: (c1 :: (utf8_lossy_f f r1))
+                    else app fffd (utf8_lossy_f f r))
+            else if (&&)
+                      (N.leb (Npos (Coq_xO (Coq_xO (Coq_xO (Coq_xO (Coq_xO
+                        (Coq_xI (Coq_xI Coq_xH)))))))) c)
+                      (N.leb c (Npos (Coq_xI (Coq_xI (Coq_xI (Coq_xI (Coq_xO
+                        (Coq_xI (Coq_xI Coq_xH)))))))))
+                 then (match r with
+                       | [] -> fffd
+                       | c1 :: r1 ->
+                         if (&&)
+                              ((&&) (cont c1)
+                                (if N.eqb c (Npos (Coq_xO (Coq_xO (Coq_xO
+                                      (Coq_xO (Coq_xO (Coq_xI (Coq_xI
+                                      Coq_xH))))))))
+                                 then N.leb (Npos (Coq_xO (Coq_xO (Coq_xO
+                                        (Coq_xO (Coq_xO (Coq_xI (Coq_xO
+                                        Coq_xH)))))))) c1
+                                 else true))
+                              (if N.eqb c (Npos (Coq_xI (Coq_xO (Coq_xI
+                                    (Coq_xI (Coq_xO (Coq_xI (Coq_xI
+                                    Coq_xH))))))))
+                               then N.leb c1 (Npos (Coq_xI (Coq_xI (Coq_xI
+                                      (Coq_xI (Coq_xI (Coq_xO (Coq_xO
+                                      Coq_xH))))))))
+                               else true)
+                         then (match r1 with
+                               | [] -> fffd
+                               | c2 :: r2 ->
+                                 if cont c2
+                                 then c :: (c1 :: (c2 :: (utf8_lossy_f f r2)))
+                                 else app fffd (utf8_lossy_f f r1))
+                         else app fffd (utf8_lossy_f f r))
+                 else if (&&)
+                           (N.leb (Npos (Coq_xO (Coq_xO (Coq_xO (Coq_xO
+                             (Coq_xI (Coq_xI (Coq_xI Coq_xH)))))))) c)
+                           (N.leb c (Npos (Coq_xO (Coq_xO (Coq_xI (Coq_xO
+                             (Coq_xI (Coq_xI (Coq_xI Coq_xH)))))))))
+                      then (match r with
+                            | [] -> fffd
+                            | c1 :: r1 ->
+                              if (&&)
+                                   ((&&) (cont c1)
+                                     (if N.eqb c (Npos (Coq_xO (Coq_xO
+                                           (Coq_xO (Coq_xO (Coq_xI (Coq_xI
+                                           (Coq_xI Coq_xH))))))))
+                                      then N.leb (Npos (Coq_xO (Coq_xO
+                                             (Coq_xO (Coq_xO (Coq_xI (Coq_xO
+                                             (Coq_xO Coq_xH)))))))) c1
+                                      else true))
+                                   (if N.eqb c (Npos (Coq_xO (Coq_xO (Coq_xI
+                                         (Coq_xO (Coq_xI (Coq_xI (Coq_xI
+                                         Coq_xH))))))))
+                                    then N.leb c1 (Npos (Coq_xI (Coq_xI
+                                           (Coq_xI (Coq_xI (Coq_xO (Coq_xO
+                                           (Coq_xO Coq_xH))))))))
+                                    else true)
+                              then (match r1 with
+                                    | [] -> fffd
+                                    | c2 :: r2 ->
+                                      if cont c2
+                                      then (match r2 with
+                                            | [] -> fffd
+                                            | c3 :: r3 ->
+                                              if cont c3
+                                              then c :: (c1 :: (c2 :: (c3 :: 
+                                                     (utf8_lossy_f f r3))))
+                                              else app fffd
+                                                     (utf8_lossy_f f r2))
+                                      else app fffd (utf8_lossy_f f r1))
+                              else app fffd (utf8_lossy_f f r))
+                      else app fffd (utf8_lossy_f f r))
+
+(** val utf8_lossy : coq_N list -> coq_N list **)
+
+let utf8_lossy l =
+  utf8_lossy_f (S (length l)) l
+
+(** val str_body_lossy :
+    nat -> coq_N list -> ((coq_N list * bool) * coq_N list) option **)
+
+let rec str_body_lossy fuel l =
+  match fuel with
+  | O -> None
+  | S f ->
+    (match l with
+     | [] -> None
+     | c :: r ->
+       if N.eqb c (Npos (Coq_xO (Coq_xI (Coq_xO (Coq_xO (Coq_xO Coq_xH))))))
+       then Some (([], false), r)
+       else if N.eqb c (Npos (Coq_xO (Coq_xO (Coq_xI (Coq_xI (Coq_xI (Coq_xO
+                 Coq_xH)))))))
+            then (match r with
+                  | [] -> None
+                  | e :: r1 ->
+                    if N.eqb e (Npos (Coq_xI (Coq_xO (Coq_xI (Coq_xO (Coq_xI
+                         (Coq_xI Coq_xH)))))))
+                    then (match r1 with
+                          | [] -> None
+                          | h1 :: l0 ->
+                            (match l0 with
+                             | [] -> None
+                             | h2 :: l1 ->
+                               (match l1 with
+                                | [] -> None
+                                | h3 :: l2 ->
+                                  (match l2 with
+                                   | [] -> None
+                                   | h4 :: r2 ->
+                                     (match hex4 h1 h2 h3 h4 with
+                                      | Some cp ->
+                                        let continue_with = fun out rest ->
+                                          match str_body_lossy f rest with
+                                          | Some p ->
+                                            let (p0, rr) = p in
+                                            let (d, _) = p0 in
+                                            Some (((app out d), true), rr)
+                                          | None -> None
+                                        in
+                                        if (&&)
+                                             (N.leb (Npos (Coq_xO (Coq_xO
+                                               (Coq_xO (Coq_xO (Coq_xO
+                                               (Coq_xO (Coq_xO (Coq_xO
+                                               (Coq_xO (Coq_xO (Coq_xO
+                                               (Coq_xI (Coq_xI (Coq_xO
+                                               (Coq_xI Coq_xH))))))))))))))))
+                                               cp)
+                                             (N.leb cp (Npos (Coq_xI (Coq_xI
+                                               (Coq_xI (Coq_xI (Coq_xI
+                                               (Coq_xI (Coq_xI (Coq_xI
+                                               (Coq_xI (Coq_xI (Coq_xO
+                                               (Coq_xI (Coq_xI (Coq_xO
+                                               (Coq_xI Coq_xH)))))))))))))))))
+                                        then (match r2 with
+                                              | [] -> continue_with fffd r2
+                                              | n :: l3 ->
+                                                (match n with
+                                                 | N0 -> continue_with fffd r2
+                                                 | Npos p ->
+                                                   (match p with
+                                                    | Coq_xO p0 ->
+                                                      (match p0 with
+                                                       | Coq_xO p1 ->
+                                                         (match p1 with
+                                                          | Coq_xI p2 ->
+                                                            (match p2 with
+                                                             | Coq_xI p3 ->
+                                                               (match p3 with
+                                                                | Coq_xI p4 ->
+                                                                  (match p4 with
+                                                                   | Coq_xO p5 ->
+                                                                    (match p5 with
+                                                                    | Coq_xH ->
+                                                                    (match l3 with
+                                                                    | [] ->
+                                                                    continue_with
+                                                                    fffd r2
+                                                                    | n0 :: l4 ->
+                                                                    (match n0 with
+                                                                    | N0 ->
+                                                                    continue_with
+                                                                    fffd r2
+                                                                    | Npos p6 ->
+                                                                    (match p6 with
+                                                                    | Coq_xI p7 ->
+                                                                    (match p7 with
+                                                                    | Coq_xO p8 ->
+                                                                    (match p8 with
+                                                                    | Coq_xI p9 ->
+                                                                    (match p9 with
+                                                                    | Coq_xO p10 ->
+                                                                    (match p10 with
+                                                                    | Coq_xI p11 ->
+                                                                    (match p11 with
+                                                                    | Coq_xI p12 ->
+                                                                    (match p12 with
+                                                                    | Coq_xH ->
+                                                                    (match l4 with
+                                                                    | [] ->
+                                                                    continue_with
+                                                                    fffd r2
+                                                                    | g1 :: l5 ->
+                                                                    (match l5 with
+                                                                    | [] ->
+                                                                    continue_with
+                                                                    fffd r2
+                                                                    | g2 :: l6 ->
+                                                                    (match l6 with
+                                                                    | [] ->
+                                                                    continue_with
+                                                                    fffd r2
+                                                                    | g3 :: l7 ->
+                                                                    (match l7 with
+                                                                    | [] ->
+                                                                    continue_with
+                                                                    fffd r2
+                                                                    | g4 :: r3 ->
+                                                                    (match 
+                                                                    hex4 g1
+                                                                    g2 g3 g4 with
+                                                                    | Some lo ->
+                                                                    if 
+                                                                    (&&)
+                                                                    (N.leb
+                                                                    (Npos
+                                                                    (Coq_xO
+                                                                    (Coq_xO
+                                                                    (Coq_xO
+                                                                    (Coq_xO
+                                                                    (Coq_xO
+                                                                    (Coq_xO
+                                                                    (Coq_xO
+                                                                    (Coq_xO
+                                                                    (Coq_xO
+                                                                    (Coq_xO
+                                                                    (Coq_xI
+                                                                    (Coq_xI
+                                                                    (Coq_xI
+                                                                    (Coq_xO
+                                                                    (Coq_xI
+                                                                    Coq_xH))))))))))))))))
+                                                                    lo)
+                                                                    (N.leb lo
+                                                                    (Npos
+                                                                    (Coq_xI
+                                                                    (Coq_xI
+                                                                    (Coq_xI
+                                                                    (Coq_xI
+                                                                    (Coq_xI
+                                                                    (Coq_xI
+                                                                    (Coq_xI
+                                                                    (Coq_xI
+                                                                    (Coq_xI
+                                                                    (Coq_xI
+                                                                    (Coq_xI
+                                                                    (Coq_xI
+                                                                    (Coq_xI
+                                                                    (Coq_xO
+                                                                    (Coq_xI
+                                                                    Coq_xH)))))))))))))))))
+                                                                    then 
+                                                                    continue_with
+                                                                    (utf8_encode
+                                                                    (N.add
+                                                                    (N.add
+                                                                    (Npos
+                                                                    (Coq_xO
+                                                                    (Coq_xO
+                                                                    (Coq_xO
+                                                                    (Coq_xO
+                                                                    (Coq_xO
+                                                                    (Coq_xO
+                                                                    (Coq_xO
+                                                                    (Coq_xO
+                                                                    (Coq_xO
+                                                                    (Coq_xO
+                                                                    (Coq_xO
+                                                                    (Coq_xO
+                                                                    (Coq_xO
+                                                                    (Coq_xO
+                                                                    (Coq_xO
+                                                                    (Coq_xO
+                                                                    Coq_xH)))))))))))))))))
+                                                                    (N.mul
+                                                                    (N.sub cp
+                                                                    (Npos
+                                                                    (Coq_xO
+                                                                    (Coq_xO
+                                                                    (Coq_xO
+                                                                    (Coq_xO
+                                                                    (Coq_xO
+                                                                    (Coq_xO
+                                                                    (Coq_xO
+                                                                    (Coq_xO
+                                                                    (Coq_xO
+                                                                    (Coq_xO
+                                                                    (Coq_xO
+                                                                    (Coq_xI
+                                                                    (Coq_xI
+                                                                    (Coq_xO
+                                                                    (Coq_xI
+                                                                    Coq_xH)))))))))))))))))
+                                                                    (Npos
+                                                                    (Coq_xO
+                                                                    (Coq_xO
+                                                                    (Coq_xO
+                                                                    (Coq_xO
+                                                                    (Coq_xO
+                                                                    (Coq_xO
+                                                                    (Coq_xO
+                                                                    (Coq_xO
+                                                                    (Coq_xO
+                                                                    (Coq_xO
+                                                                    Coq_xH)))))))))))))
+                                                                    (N.sub lo
+                                                                    (Npos
+                                                                    (Coq_xO
+                                                                    (Coq_xO
+                                                                    (Coq_xO
+                                                                    (Coq_xO
+                                                                    (Coq_xO
+                                                                    (Coq_xO
+                                                                    (Coq_xO
+                                                                    (Coq_xO
+                                                                    (Coq_xO
+                                                                    (Coq_xO
+                                                                    (Coq_xI
+                                                                    (Coq_xI
+                                                                    (Coq_xI
+                                                                    (Coq_xO
+                                                                    (Coq_xI
+                                                                    Coq_xH)))))))))))))))))))
+                                                                    r3
+                                                                    else 
+                                                                    continue_with
+                                                                    fffd r2
+                                                                    | None ->
+                                                                    None)))))
+                                                                    | _ ->
+                                                                    continue_with
+                                                                    fffd r2)
+                                                                    | _ ->
+                                                                    continue_with
+                                                                    fffd r2)
+                                                                    | _ ->
+                                                                    continue_with
+                                                                    fffd r2)
+                                                                    | _ ->
+                                                                    continue_with
+                                                                    fffd r2)
+                                                                    | _ ->
+                                                                    continue_with
+                                                                    fffd r2)
+                                                                    | _ ->
+                                                                    continue_with
+                                                                    fffd r2)
+                                                                    | _ ->
+                                                                    continue_with
+                                                                    fffd r2)))
+                                                                    | _ ->
+                                                                    continue_with
+                                                                    fffd r2)
+                                                                   | _ ->
+                                                                    continue_with
+                                                                    fffd r2)
+                                                                | _ ->
+                                                                  continue_with
+                                                                    fffd r2)
+                                                             | _ ->
+                                                               continue_with
+                                                                 fffd r2)
+                                                          | _ ->
+                                                            continue_with
+                                                              fffd r2)
+                                                       | _ ->
+                                                         continue_with fffd r2)
+                                                    | _ ->
+                                                      continue_with fffd r2)))
+                                        else if (&&)
+                                                  (N.leb (Npos (Coq_xO
+                                                    (Coq_xO (Coq_xO (Coq_xO
+                                                    (Coq_xO (Coq_xO (Coq_xO
+                                                    (Coq_xO (Coq_xO (Coq_xO
+                                                    (Coq_xI (Coq_xI (Coq_xI
+                                                    (Coq_xO (Coq_xI
+                                                    Coq_xH)))))))))))))))) cp)
+                                                  (N.leb cp (Npos (Coq_xI
+                                                    (Coq_xI (Coq_xI (Coq_xI
+                                                    (Coq_xI (Coq_xI (Coq_xI
+                                                    (Coq_xI (Coq_xI (Coq_xI
+                                                    (Coq_xI (Coq_xI (Coq_xI
+                                                    (Coq_xO (Coq_xI
+                                                    Coq_xH)))))))))))))))))
+                                             then continue_with fffd r2
+                                             else continue_with
+                                                    (utf8_encode cp) r2
+                                      | None -> None)))))
+                    else (match simple_escape e with
+                          | Some o ->
+                            (match str_body_lossy f r1 with
+                             | Some p ->
+                               let (p0, rest) = p in
+                               let (d, _) = p0 in
+                               Some (((o :: d), true), rest)
+                             | None -> None)
+                          | None -> None))
+            else if N.ltb c (Npos (Coq_xO (Coq_xO (Coq_xO (Coq_xO (Coq_xO
+                      Coq_xH))))))
+                 then None
+                 else (match str_body_lossy f r with
+                       | Some p ->
+                         let (p0, rest) = p in
+                         let (d, h) = p0 in Some (((c :: d), h), rest)
+                       | None -> None))
+
+(** val decode_literal : bool -> coq_N list -> (coq_N list * bool) option **)
+
+let decode_literal lossy lit = match lit with
+| [] -> None
+| n :: body ->
+  (match n with
+   | N0 -> None
+   | Npos p ->
+     (match p with
+      | Coq_xO p0 ->
+        (match p0 with
+         | Coq_xI p1 ->
+           (match p1 with
+            | Coq_xO p2 ->
+              (match p2 with
+               | Coq_xO p3 ->
+                 (match p3 with
+                  | Coq_xO p4 ->
+                    (match p4 with
+                     | Coq_xH ->
+                       if lossy
+                       then (match str_body_lossy (S (length body)) body with
+                             | Some p5 ->
+                               let (p6, l) = p5 in
+                               let (d, h) = p6 in
+                               (match l with
+                                | [] -> Some ((utf8_lossy d), h)
+                                | _ :: _ -> None)
+                             | None -> None)
+                       else if utf8_valid lit
+                            then (match str_body true (S (length body)) body with
+                                  | Some p5 ->
+                                    let (p6, l) = p5 in
+                                    (match l with
+                                     | [] -> Some p6
+                                     | _ :: _ -> None)
+                                  | None -> None)
+                            else None
+                     | _ -> None)
+                  | _ -> None)
+               | _ -> None)
+            | _ -> None)
+         | _ -> None)
+      | _ -> None))
+
+(** val skip_literal : coq_N list -> bool **)
+
+let skip_literal lit = match lit with
+| [] -> false
+| n :: body ->
+  (match n with
+   | N0 -> false
+   | Npos p ->
+     (match p with
+      | Coq_xO p0 ->
+        (match p0 with
+         | Coq_xI p1 ->
+           (match p1 with
+            | Coq_xO p2 ->
+              (match p2 with
+               | Coq_xO p3 ->
+                 (match p3 with
+                  | Coq_xO p4 ->
+                    (match p4 with
+                     | Coq_xH ->
+                       (&&) (utf8_valid lit)
+                         (match str_body false (S (length body)) body with
+                          | Some p5 ->
+                            let (_, l) = p5 in
+                            (match l with
+                             | [] -> true
+                             | _ :: _ -> false)
+                          | None -> false)
+                     | _ -> false)
+                  | _ -> false)
+               | _ -> false)
+            | _ -> false)
+         | _ -> false)
+      | _ -> false))
